@@ -73,7 +73,7 @@ func run(c *vf.Ctx) {
 	depth, flat := 6, 3
 	xors := []int{0, 1, 7, 31, 63, 64, 65, 127, 128, 129, 191, 255, 256, 300, 5000}
 	if c.Thorough {
-		depth, flat = 8, 5
+		depth, flat = 7, 4
 	}
 	var ops []op
 	for _, n := range xors {
@@ -276,4 +276,3 @@ func runHistory(c *vf.Ctx, ks *ksCache, start uint64, hist []op, src []byte, mer
 	ctr, buffered, ov := ci.VerifC03State()
 	return fmt.Sprintf("ctr=%d buf=%d ov=%v pre=%v pos=%d", ctr, buffered, ov, ci.VerifC03Precomp(), pos), false, ""
 }
-
